@@ -20,7 +20,7 @@ class BFS(object):
         self.truncated = False
         self.edges = collections.Counter()
 
-    def run(self, initial, events, step):
+    def run(self, initial, events, step, visit=None):
         """initial: list of (history, canon).  events(history) -> iterable of
         events enabled after `history`.  step(history, event) ->
         canon-of-successor or None when the event leaves no successor to
@@ -33,6 +33,8 @@ class BFS(object):
         while frontier:
             h, d = frontier.popleft()
             self.depth_reached = max(self.depth_reached, d)
+            if visit is not None:
+                visit(h)        # observations on every state, also at the bound
             if self.max_depth is not None and d >= self.max_depth:
                 self.truncated = True
                 continue
